@@ -101,18 +101,18 @@ Section Correct.
   Notation x0 := (rho v).
 
   (* the function of the differentiation variable denoted by e *)
-  Definition F (e : expr) (t : R) : R := evalR (upd rho v t) penv e.
+  Definition fn_of (e : expr) (t : R) : R := evalR (upd rho v t) penv e.
 
-  Definition P (e : expr) : Prop := is_derive (F e) x0 (ev (g e)).
+  Definition DerivOK (e : expr) : Prop := is_derive (fn_of e) x0 (ev (g e)).
 
-  Lemma F_x0 e : F e x0 = ev e.
-  Proof. unfold F. now rewrite upd_same. Qed.
+  Lemma F_x0 e : fn_of e x0 = ev e.
+  Proof. unfold fn_of. now rewrite upd_same. Qed.
 
-  Lemma P_const q : P (Const q).
-  Proof. unfold P. simpl. rewrite Q2R_0'. apply is_derive_const_R. Qed.
+  Lemma P_const q : DerivOK (Const q).
+  Proof. unfold DerivOK. simpl. rewrite Q2R_0'. apply is_derive_const_R. Qed.
 
-  Lemma P_param p : P (Param p).
-  Proof. unfold P. simpl. rewrite Q2R_0'. apply is_derive_const_R. Qed.
+  Lemma P_param p : DerivOK (Param p).
+  Proof. unfold DerivOK. simpl. rewrite Q2R_0'. apply is_derive_const_R. Qed.
 
   Lemma ev_grad_var y : ev (g (Var y)) = ind v y.
   Proof.
@@ -126,8 +126,8 @@ Section Correct.
     - apply is_derive_const_R.
   Qed.
 
-  Lemma P_var y : P (Var y).
-  Proof. unfold P. rewrite ev_grad_var. apply upd_derive. Qed.
+  Lemma P_var y : DerivOK (Var y).
+  Proof. unfold DerivOK. rewrite ev_grad_var. apply upd_derive. Qed.
 
   (* --- unary --- *)
   Lemma unary_grad_ev o a da :
@@ -141,12 +141,12 @@ Section Correct.
   Qed.
 
   Lemma P_un o a :
-    uop_exact o = true -> uop_reg o (ev a) -> P a -> P (Un o a).
+    uop_exact o = true -> uop_reg o (ev a) -> DerivOK a -> DerivOK (Un o a).
   Proof.
-    unfold P. intros Ho Hreg Ha.
-    change (F (Un o a)) with (fun t => uopR o (F a t)).
+    unfold DerivOK. intros Ho Hreg Ha.
+    change (fn_of (Un o a)) with (fun t => uopR o (fn_of a t)).
     eapply is_derive_eq.
-    - apply (is_derive_comp_R (uopR o) (F a)); [|exact Ha].
+    - apply (is_derive_comp_R (uopR o) (fn_of a)); [|exact Ha].
       apply uop_derive. rewrite F_x0. exact Hreg.
     - rewrite F_x0. simpl g. rewrite unary_grad_ev by exact Ho. ring.
   Qed.
@@ -162,22 +162,22 @@ Section Correct.
   Proof. destruct r; simpl; intros H; try discriminate; reflexivity. Qed.
 
   Lemma F_pow_gen l r t :
-    is_const r = false -> F (Bin Pow l r) t = Rpower (F l t) (F r t).
-  Proof. intros H. unfold F. now apply evalR_pow_gen. Qed.
+    is_const r = false -> fn_of (Bin Pow l r) t = Rpower (fn_of l t) (fn_of r t).
+  Proof. intros H. unfold fn_of. now apply evalR_pow_gen. Qed.
 
-  Lemma P_pow_const l n : powQ_reg (ev l) n -> P l -> P (Bin Pow l (Const n)).
+  Lemma P_pow_const l n : powQ_reg (ev l) n -> DerivOK l -> DerivOK (Bin Pow l (Const n)).
   Proof.
-    unfold P. intros Hreg Hl.
-    change (F (Bin Pow l (Const n))) with (fun t => powQ (F l t) n).
+    unfold DerivOK. intros Hreg Hl.
+    change (fn_of (Bin Pow l (Const n))) with (fun t => powQ (fn_of l t) n).
     simpl g. unfold binary_grad.
     destruct (Qeq_bool n 0) eqn:E0; [|destruct (Qeq_bool n 1) eqn:E1].
     - rewrite ev_c0. apply is_derive_ext with (fun _ : R => 1).
       + intros t. symmetry. now apply powQ_exp0.
       + apply is_derive_const_R.
-    - apply is_derive_ext with (F l); [|exact Hl].
+    - apply is_derive_ext with (fn_of l); [|exact Hl].
       intros t. symmetry. now apply powQ_exp1.
     - eapply is_derive_eq.
-      + apply (is_derive_comp_R (fun t => powQ t n) (F l)); [|exact Hl].
+      + apply (is_derive_comp_R (fun t => powQ t n) (fn_of l)); [|exact Hl].
         apply powQ_derive. rewrite F_x0. exact Hreg.
       + rewrite F_x0, !s_mul_ev, s_pow_ev; [simpl; ring|].
         intros Hz _ _. rewrite (is_zero_ev _ _ _ Hz) in Hreg.
@@ -203,20 +203,20 @@ Section Correct.
     | _ => True
     end.
 
-  Lemma P_bin o l r : bin_reg o l r -> P l -> P r -> P (Bin o l r).
+  Lemma P_bin o l r : bin_reg o l r -> DerivOK l -> DerivOK r -> DerivOK (Bin o l r).
   Proof.
     intros Hreg Hl Hr. destruct o.
-    - unfold P in *. change (F (Bin Add l r)) with (fun t => F l t + F r t).
+    - unfold DerivOK in *. change (fn_of (Bin Add l r)) with (fun t => fn_of l t + fn_of r t).
       simpl g. unfold binary_grad. rewrite s_add_ev.
       apply is_derive_plus_R; assumption.
-    - unfold P in *. change (F (Bin Sub l r)) with (fun t => F l t - F r t).
+    - unfold DerivOK in *. change (fn_of (Bin Sub l r)) with (fun t => fn_of l t - fn_of r t).
       simpl g. unfold binary_grad. rewrite s_sub_ev.
       apply is_derive_minus_R; assumption.
-    - unfold P in *. change (F (Bin Mul l r)) with (fun t => F l t * F r t).
+    - unfold DerivOK in *. change (fn_of (Bin Mul l r)) with (fun t => fn_of l t * fn_of r t).
       simpl g. unfold binary_grad. rewrite s_add_ev, !s_mul_ev.
       eapply is_derive_eq; [apply is_derive_mult_R; eassumption|].
       rewrite !F_x0. ring.
-    - unfold P in *. change (F (Bin Div l r)) with (fun t => F l t / F r t).
+    - unfold DerivOK in *. change (fn_of (Bin Div l r)) with (fun t => fn_of l t / fn_of r t).
       simpl g. unfold binary_grad. rewrite s_div_ev, s_sub_ev, !s_mul_ev.
       simpl in Hreg.
       eapply is_derive_eq; [apply is_derive_div; try eassumption|].
@@ -225,10 +225,10 @@ Section Correct.
     - destruct (is_const r) eqn:Ec.
       + destruct (is_const_inv r Ec) as [n ->]. apply P_pow_const; assumption.
       + assert (Hpos : 0 < ev l) by (destruct r; try discriminate; exact Hreg).
-        unfold P in *.
+        unfold DerivOK in *.
         change (g (Bin Pow l r)) with (binary_grad Pow l r (g l) (g r)).
         rewrite binary_grad_pow_gen by exact Ec.
-        apply is_derive_ext with (fun t => Rpower (F l t) (F r t)).
+        apply is_derive_ext with (fun t => Rpower (fn_of l t) (fn_of r t)).
         * intros t. symmetry. now apply F_pow_gen.
         * eapply is_derive_eq; [apply Rpower_derive; try eassumption|].
           -- rewrite F_x0. exact Hpos.
@@ -243,7 +243,7 @@ Section Correct.
 
   (** ** Scalar core *)
   Theorem grad_correct_scalar_aux e :
-    scalar_only e = true -> exact_ops e = true -> regular rho penv e -> P e.
+    scalar_only e = true -> exact_ops e = true -> regular rho penv e -> DerivOK e.
   Proof.
     induction e as [q|y|p|o l IHl r IHr|o a IHa| | | | | | | | | | | ];
       try discriminate; intros Hs Hx Hr.
@@ -297,9 +297,9 @@ Section Correct.
   Proof. rewrite map_map. apply map_ext. intros y. apply ev_grad_var. Qed.
 
   (* --- sums: VectorSum, VectorExpressionSum, MatrixSum --- *)
-  Lemma P_vsum i xs : NoDup xs -> P (VSum i xs).
+  Lemma P_vsum i xs : NoDup xs -> DerivOK (VSum i xs).
   Proof.
-    intros Hnd. unfold P.
+    intros Hnd. unfold DerivOK.
     eapply is_derive_eq.
     - apply (sumR_derive xs (fun y t => upd rho v t y) (fun y => 1 * ind v y)).
       apply Forall_forall. intros y _. rewrite Rmult_1_l. apply upd_derive.
@@ -307,24 +307,24 @@ Section Correct.
       destruct (mem_name v xs); [apply eq_sym, Q2R_1'|apply eq_sym, Q2R_0'].
   Qed.
 
-  Lemma P_sum_list es : Forall P es ->
-    is_derive (fun t => sumR (map (fun e => F e t) es)) x0 (ev (sum_grad (map g es) c0)).
+  Lemma P_sum_list es : Forall DerivOK es ->
+    is_derive (fun t => sumR (map (fun e => fn_of e t) es)) x0 (ev (sum_grad (map g es) c0)).
   Proof.
     intros H. eapply is_derive_eq.
-    - exact (sumR_derive es F dv x0 H).
+    - exact (sumR_derive es fn_of dv x0 H).
     - rewrite sum_grad_ev, ev_c0, map_map. ring.
   Qed.
 
-  Lemma P_vexprsum es : Forall P es -> P (VExprSum es).
+  Lemma P_vexprsum es : Forall DerivOK es -> DerivOK (VExprSum es).
   Proof. intros H. exact (P_sum_list es H). Qed.
 
-  Lemma P_msum b es : Forall P es -> P (MSum b es).
+  Lemma P_msum b es : Forall DerivOK es -> DerivOK (MSum b es).
   Proof. intros H. exact (P_sum_list es H). Qed.
 
   (* --- LinearCombination --- *)
-  Lemma lincomb_derive cs es : Forall P es ->
-    is_derive (F (LinComb cs KExpr es)) x0 (dotR (map Q2R cs) (map dv es)).
-  Proof. intros H. exact (dotR_const_derive (map Q2R cs) es F dv x0 H). Qed.
+  Lemma lincomb_derive cs es : Forall DerivOK es ->
+    is_derive (fn_of (LinComb cs KExpr es)) x0 (dotR (map Q2R cs) (map dv es)).
+  Proof. intros H. exact (dotR_const_derive (map Q2R cs) es fn_of dv x0 H). Qed.
 
   Lemma dotR_ind_zero cs xs : ~ In v xs -> dotR cs (map (ind v) xs) = 0.
   Proof.
@@ -351,9 +351,9 @@ Section Correct.
     exists (vec_names es). split; [apply is_var_names, H1|apply NoDupb_NoDup, H2].
   Qed.
 
-  Lemma P_lincomb cs k es : kind_wf k es = true -> Forall P es -> P (LinComb cs k es).
+  Lemma P_lincomb cs k es : kind_wf k es = true -> Forall DerivOK es -> DerivOK (LinComb cs k es).
   Proof.
-    intros Hk H. unfold P. eapply is_derive_eq; [exact (lincomb_derive cs es H)|].
+    intros Hk H. unfold DerivOK. eapply is_derive_eq; [exact (lincomb_derive cs es H)|].
     destruct k as [i|]; simpl g.
     - destruct (kind_wf_KVar i es Hk) as [xs [-> Hnd]].
       rewrite first_coeff_ev by exact Hnd. now rewrite dv_map_Var.
@@ -367,24 +367,24 @@ Section Correct.
     (forall a, h' a = k * h a) -> sumR (map h' l) = k * sumR (map h l).
   Proof. intros H. rewrite <- sumR_scal. f_equal. apply map_ext, H. Qed.
 
-  Lemma sumsq_derive es : Forall P es ->
-    is_derive (fun t => sumR (map (fun e => Rsqr (F e t)) es)) x0
+  Lemma sumsq_derive es : Forall DerivOK es ->
+    is_derive (fun t => sumR (map (fun e => Rsqr (fn_of e t)) es)) x0
               (sumR (map (fun e => 2 * ev e * dv e) es)).
   Proof.
-    intros H. apply (sumR_derive es (fun e t => Rsqr (F e t))).
+    intros H. apply (sumR_derive es (fun e t => Rsqr (fn_of e t))).
     eapply Forall_impl; [|exact H]. intros e He. unfold Rsqr.
     eapply is_derive_eq; [apply is_derive_mult_R; exact He|]. rewrite F_x0. ring.
   Qed.
 
-  Lemma norm2_derive es : Forall P es -> 0 < sumsq es ->
-    is_derive (fun t => sqrt (sumR (map (fun e => Rsqr (F e t)) es))) x0
+  Lemma norm2_derive es : Forall DerivOK es -> 0 < sumsq es ->
+    is_derive (fun t => sqrt (sumR (map (fun e => Rsqr (fn_of e t)) es))) x0
               (sumR (map (fun e => ev e / sqrt (sumsq es) * dv e) es)).
   Proof.
     intros H Hpos.
-    assert (Hx : sumR (map (fun e => Rsqr (F e x0)) es) = sumsq es).
-    { unfold F. now rewrite upd_same. }
+    assert (Hx : sumR (map (fun e => Rsqr (fn_of e x0)) es) = sumsq es).
+    { unfold fn_of. now rewrite upd_same. }
     eapply is_derive_eq.
-    - apply (is_derive_sqrt (fun t => sumR (map (fun e => Rsqr (F e t)) es)));
+    - apply (is_derive_sqrt (fun t => sumR (map (fun e => Rsqr (fn_of e t)) es)));
         [apply sumsq_derive, H|]. rewrite Hx. exact Hpos.
     - cbv beta. rewrite Hx.
       assert (Hs := sqrt_lt_R0 _ Hpos). set (s := sqrt (sumsq es)) in *.
@@ -399,15 +399,15 @@ Section Correct.
     ev (norm2_grad node es (map g es) c0) = sumR (map (fun e => ev e / ev node * dv e) es).
   Proof. rewrite norm2_grad_ev, ev_c0, map_map, dotR_map_same. ring. Qed.
 
-  Lemma P_frob es : Forall P es -> 0 < sumsq es -> P (Frob es).
+  Lemma P_frob es : Forall DerivOK es -> 0 < sumsq es -> DerivOK (Frob es).
   Proof.
-    intros H Hpos. unfold P. eapply is_derive_eq; [exact (norm2_derive es H Hpos)|].
+    intros H Hpos. unfold DerivOK. eapply is_derive_eq; [exact (norm2_derive es H Hpos)|].
     simpl g. rewrite norm2_grad_sum. reflexivity.
   Qed.
 
-  Lemma P_l2n k es : kind_wf k es = true -> Forall P es -> 0 < sumsq es -> P (L2n k es).
+  Lemma P_l2n k es : kind_wf k es = true -> Forall DerivOK es -> 0 < sumsq es -> DerivOK (L2n k es).
   Proof.
-    intros Hk H Hpos. unfold P. eapply is_derive_eq; [exact (norm2_derive es H Hpos)|].
+    intros Hk H Hpos. unfold DerivOK. eapply is_derive_eq; [exact (norm2_derive es H Hpos)|].
     destruct k as [i|]; simpl g.
     - destruct (kind_wf_KVar i es Hk) as [xs [Hes Hnd]].
       assert (Hn : ev (L2n (KVar i) es) = sqrt (sumsq es)) by reflexivity.
@@ -422,21 +422,21 @@ Section Correct.
   Qed.
 
   (* --- L1Norm --- *)
-  Lemma norm1_derive es : Forall P es -> Forall (fun e => ev e <> 0) es ->
-    is_derive (fun t => sumR (map (fun e => Rabs (F e t)) es)) x0
+  Lemma norm1_derive es : Forall DerivOK es -> Forall (fun e => ev e <> 0) es ->
+    is_derive (fun t => sumR (map (fun e => Rabs (fn_of e t)) es)) x0
               (sumR (map (fun e => ev e / Rabs (ev e) * dv e) es)).
   Proof.
-    intros H Hne. apply (sumR_derive es (fun e t => Rabs (F e t))).
+    intros H Hne. apply (sumR_derive es (fun e t => Rabs (fn_of e t))).
     eapply Forall_impl; [|exact (Forall_and _ _ _ H Hne)]. intros e [He Hn].
     eapply is_derive_eq.
-    - apply (is_derive_Rabs (F e)); [exact He|]. rewrite F_x0. exact Hn.
+    - apply (is_derive_Rabs (fn_of e)); [exact He|]. rewrite F_x0. exact Hn.
     - rewrite F_x0, (sign_div_abs _ Hn). reflexivity.
   Qed.
 
-  Lemma P_l1n k es : kind_wf k es = true -> Forall P es ->
-    Forall (fun e => ev e <> 0) es -> P (L1n k es).
+  Lemma P_l1n k es : kind_wf k es = true -> Forall DerivOK es ->
+    Forall (fun e => ev e <> 0) es -> DerivOK (L1n k es).
   Proof.
-    intros Hk H Hne. unfold P. eapply is_derive_eq; [exact (norm1_derive es H Hne)|].
+    intros Hk H Hne. unfold DerivOK. eapply is_derive_eq; [exact (norm1_derive es H Hne)|].
     destruct k as [i|]; simpl g.
     - destruct (kind_wf_KVar i es Hk) as [xs [Hes Hnd]]. subst es.
       rewrite vec_names_map_Var, map_map.
@@ -455,15 +455,20 @@ Section Correct.
     | _, _ => 0
     end.
 
-  Lemma dot_derive ls rs : Forall P ls -> Forall P rs ->
-    is_derive (F (Dot KExpr ls KExpr rs)) x0 (dot2R ls rs).
+  Lemma dot2R_cons l ls r rs :
+    dot2R (l :: ls) (r :: rs) = (ev l * ev (g r) + ev r * ev (g l)) + dot2R ls rs.
+  Proof. reflexivity. Qed.
+
+  Lemma dot_derive ls rs : Forall DerivOK ls -> Forall DerivOK rs ->
+    is_derive (fn_of (Dot KExpr ls KExpr rs)) x0 (dot2R ls rs).
   Proof.
     intros Hl. revert rs. induction Hl as [|l ls Hl Hls IH]; intros rs Hr.
-    - apply is_derive_const_R.
-    - destruct Hr as [|r rs Hr Hrs]; [apply is_derive_const_R|].
-      change (F (Dot KExpr (l :: ls) KExpr (r :: rs)))
-        with (fun t => F l t * F r t + F (Dot KExpr ls KExpr rs) t).
-      simpl dot2R. apply is_derive_plus_R; [|apply IH, Hrs].
+    - change (is_derive (fun _ : R => 0) x0 0). apply is_derive_const_R.
+    - destruct Hr as [|r rs Hr Hrs];
+        [change (is_derive (fun _ : R => 0) x0 0); apply is_derive_const_R|].
+      change (fn_of (Dot KExpr (l :: ls) KExpr (r :: rs)))
+        with (fun t => fn_of l t * fn_of r t + fn_of (Dot KExpr ls KExpr rs) t).
+      rewrite dot2R_cons. apply is_derive_plus_R; [|apply IH, Hrs].
       eapply is_derive_eq; [apply is_derive_mult_R; [exact Hl|exact Hr]|].
       rewrite !F_x0. ring.
   Qed.
@@ -481,22 +486,24 @@ Section Correct.
   Proof.
     revert ys acc. induction xs as [|x xs IH]; intros [|y ys] acc; simpl map;
       try (simpl; ring).
-    simpl dot_vv_grad. rewrite IH. simpl dot2R. rewrite !ev_grad_var. unfold ind.
-    destruct (String.eqb x v), (String.eqb y v); rewrite ?s_add_ev; simpl; ring.
+    simpl dot_vv_grad. rewrite IH, dot2R_cons, !ev_grad_var. unfold ind.
+    change (ev (Var x)) with (rho x). change (ev (Var y)) with (rho y).
+    destruct (String.eqb x v), (String.eqb y v); rewrite ?s_add_ev;
+      change (ev (Var x)) with (rho x); change (ev (Var y)) with (rho y); ring.
   Qed.
 
   Lemma dot2R_same xs :
     dot2R (map Var xs) (map Var xs) = sumR (map (fun y => 2 * rho y * ind v y) xs).
   Proof.
     induction xs as [|x xs IH]; simpl map; [reflexivity|].
-    simpl dot2R. rewrite IH, ev_grad_var. simpl. ring.
+    rewrite dot2R_cons, IH, ev_grad_var. simpl. ring.
   Qed.
 
   Lemma P_dot kl ls kr rs :
     kind_wf kl ls = true -> kind_wf kr rs = true -> same_vec kl ls kr rs = true ->
-    Forall P ls -> Forall P rs -> P (Dot kl ls kr rs).
+    Forall DerivOK ls -> Forall DerivOK rs -> DerivOK (Dot kl ls kr rs).
   Proof.
-    intros Hkl Hkr Hsame Hl Hr. unfold P.
+    intros Hkl Hkr Hsame Hl Hr. unfold DerivOK.
     eapply is_derive_eq; [exact (dot_derive ls rs Hl Hr)|].
     assert (Hgen : dot2R ls rs = ev (dot_gen_grad ls rs (map g ls) (map g rs) c0))
       by (rewrite dot_gen_grad_ev, ev_c0; ring).
@@ -506,7 +513,6 @@ Section Correct.
     simpl g. simpl in Hsame. destruct (N.eqb i j).
     - rewrite !vec_names_map_Var in Hsame. apply list_eqb_string_eq in Hsame. subst ys.
       rewrite vec_names_map_Var, dot2R_same.
-      rewrite (sumR_ext_in _ (fun y => 2 * rho y * ind v y)) by reflexivity.
       rewrite (sum_indicator (fun y => 2 * rho y) v xs Hxs).
       destruct (mem_name v xs); [|apply eq_sym, ev_c0].
       rewrite s_mul_ev, ev_c2. reflexivity.
@@ -533,9 +539,9 @@ Section Correct.
   Qed.
 
   Lemma P_vpowsum i xs p :
-    NoDup xs -> Forall (fun y => powQ_reg (rho y) p) xs -> P (VPowSum i xs p).
+    NoDup xs -> Forall (fun y => powQ_reg (rho y) p) xs -> DerivOK (VPowSum i xs p).
   Proof.
-    intros Hnd Hreg. unfold P.
+    intros Hnd Hreg. unfold DerivOK.
     eapply is_derive_eq.
     - apply (sumR_derive xs (fun y t => powQ (upd rho v t y) p)
                          (fun y => Q2R p * powQ (rho y) (p - 1) * ind v y)).
@@ -563,9 +569,9 @@ Section Correct.
 
   Lemma P_vunsum i xs o :
     vun_ok o = true -> NoDup xs -> Forall (fun y => uop_reg o (rho y)) xs ->
-    P (VUnSum i xs o).
+    DerivOK (VUnSum i xs o).
   Proof.
-    intros Ho Hnd Hreg. unfold P.
+    intros Ho Hnd Hreg. unfold DerivOK.
     eapply is_derive_eq.
     - apply (sumR_derive xs (fun y t => uopR o (upd rho v t y))
                          (fun y => uop_d o (rho y) * ind v y)).
@@ -578,8 +584,211 @@ Section Correct.
       simpl g. destruct (mem_name v xs); [|apply eq_sym, ev_c0].
       symmetry. apply vunary_deriv_ev, Ho.
   Qed.
+
+  (* --- QuadraticForm --- *)
+  Notation hrow es m i :=
+    (bigsum (length es) (fun j => (qa m i j + qa m j i) * nth j (map ev es) 0)).
+  Notation QD es m :=
+    (bigsum (length es) (fun i => hrow es m i * nth i (map dv es) 0)).
+
+  Lemma qform_derive k es m : Forall DerivOK es -> is_derive (fn_of (QForm k es m)) x0 (QD es m).
+  Proof.
+    intros H. eapply is_derive_eq.
+    - apply (dotR_derive es m fn_of (fun row t => matvec_row row (map (fun e => fn_of e t) es))
+                         dv (fun row => matvec_row row (map dv es)) x0 H).
+      apply Forall_forall. intros row _. unfold matvec_row.
+      exact (dotR_const_derive (map Q2R row) es fn_of dv x0 H).
+    - cbv beta. unfold fn_of. rewrite upd_same.
+      apply (qform_identity m (map ev es) (map dv es)); rewrite map_length; reflexivity.
+  Qed.
+
+  Lemma qf_fold_ev l acc :
+    ev (fold_left (fun acc (jc : expr * Q) =>
+                     let '(ej, c) := jc in
+                     if Qeq_bool c 0 then acc else s_add acc (s_mul (Const c) ej)) l acc) =
+    ev acc + sumR (map (fun jc => Q2R (snd jc) * ev (fst jc)) l).
+  Proof.
+    revert acc. induction l as [|[ej c] l IH]; intros acc; simpl; [ring|].
+    rewrite IH. destruct (Qeq_bool c 0) eqn:E.
+    - rewrite (Qeq_bool_Q2R _ _ E), Q2R_0'. ring.
+    - rewrite s_add_ev, s_mul_ev. simpl. ring.
+  Qed.
+
+  Lemma combine_dot es (cs : list Q) :
+    sumR (map (fun jc => Q2R (snd jc) * ev (fst jc)) (combine es cs)) =
+    dotR (map Q2R cs) (map ev es).
+  Proof.
+    revert cs. induction es as [|e es IH]; intros [|c cs]; simpl; try reflexivity.
+    now rewrite IH.
+  Qed.
+
+  Lemma qrow_ev es m i :
+    dotR (map Q2R (qsym_row m i (length es))) (map ev es) = hrow es m i.
+  Proof.
+    rewrite dotR_bigsum_r, map_length. apply bigsum_ext. intros j Hj. f_equal.
+    rewrite nth_map_Q2R. unfold qsym_row. rewrite nth_map_seq by exact Hj.
+    unfold qsym, qa. apply Q2R_plus.
+  Qed.
+
+  Lemma qf_row_ev es m i : ev (qf_row es m i) = hrow es m i.
+  Proof.
+    unfold qf_row. rewrite qf_fold_ev, ev_c0, combine_dot, qrow_ev. ring.
+  Qed.
+
+  Lemma qform_grad_ev es m des i acc :
+    ev (qform_grad es m des i acc) =
+    ev acc + dotR (map (fun k => ev (qf_row es m k)) (seq i (length des))) (map ev des).
+  Proof.
+    revert i acc. induction des as [|d des IH]; intros i acc; simpl; [ring|].
+    rewrite IH, s_add_ev, s_mul_ev. ring.
+  Qed.
+
+  Lemma index_of_ge xs k i :
+    index_of v (map Var xs) k = Some i -> (k <= i < k + length xs)%nat.
+  Proof.
+    revert k. induction xs as [|y xs IH]; intros k; simpl; [discriminate|].
+    destruct (String.eqb y v).
+    - intros H. inversion H. lia.
+    - intros H. apply IH in H. lia.
+  Qed.
+
+  Lemma index_of_none xs k : index_of v (map Var xs) k = None -> ~ In v xs.
+  Proof.
+    revert k. induction xs as [|y xs IH]; intros k; simpl; [tauto|].
+    destruct (String.eqb y v) eqn:E; [discriminate|].
+    intros H [Hy|Hin].
+    - subst y. rewrite String.eqb_refl in E. discriminate.
+    - exact (IH _ H Hin).
+  Qed.
+
+  Lemma nth_ind_zero xs j : ~ In v xs -> nth j (map (ind v) xs) 0 = 0.
+  Proof.
+    revert j. induction xs as [|y xs IH]; intros [|j] Hn; simpl; try reflexivity.
+    - unfold ind. destruct (String.eqb y v) eqn:E; [|reflexivity].
+      apply String.eqb_eq in E. exfalso. apply Hn. now left.
+    - apply IH. intros H. apply Hn. now right.
+  Qed.
+
+  Lemma index_of_onehot xs k i :
+    NoDup xs -> index_of v (map Var xs) k = Some i ->
+    forall j, nth j (map (ind v) xs) 0 = if Nat.eqb (k + j) i then 1 else 0.
+  Proof.
+    intros Hnd. revert k. induction Hnd as [|y xs Hy Hxs IH]; intros k; simpl;
+      [discriminate|].
+    destruct (String.eqb y v) eqn:E; intros H j.
+    - inversion H. subst i. apply String.eqb_eq in E. subst y. destruct j as [|j].
+      + rewrite Nat.add_0_r, Nat.eqb_refl. unfold ind. now rewrite String.eqb_refl.
+      + rewrite nth_ind_zero by exact Hy.
+        replace (Nat.eqb (k + S j) k) with false; [reflexivity|].
+        symmetry. apply Nat.eqb_neq. lia.
+    - destruct j as [|j].
+      + apply index_of_ge in H. unfold ind. rewrite E.
+        replace (Nat.eqb (k + 0) i) with false; [reflexivity|].
+        symmetry. apply Nat.eqb_neq. lia.
+      + rewrite (IH (S k) H j). rewrite Nat.add_succ_r. reflexivity.
+  Qed.
+
+  Lemma P_qform k es m : kind_wf k es = true -> Forall DerivOK es -> DerivOK (QForm k es m).
+  Proof.
+    intros Hk H. unfold DerivOK. eapply is_derive_eq; [exact (qform_derive k es m H)|].
+    destruct k as [i0|]; simpl g.
+    - destruct (kind_wf_KVar i0 es Hk) as [xs [Hes Hnd]].
+      destruct (index_of v es 0) as [i|] eqn:E.
+      + change (ev (LinComb (qsym_row m i (length es)) (KVar i0) es))
+          with (dotR (map Q2R (qsym_row m i (length es))) (map ev es)).
+        rewrite qrow_ev. rewrite Hes in E.
+        assert (Hi : (i < length es)%nat).
+        { apply index_of_ge in E. rewrite Hes, map_length. lia. }
+        rewrite <- (bigsum_onehot (length es) i (fun i => hrow es m i) Hi).
+        apply bigsum_ext. intros i' Hi'. f_equal.
+        rewrite Hes, dv_map_Var. apply (index_of_onehot xs 0 i Hnd E).
+      + rewrite ev_c0. apply bigsum_zero. intros i' Hi'.
+        rewrite Hes in E. apply index_of_none in E.
+        rewrite Hes at 2. rewrite dv_map_Var, nth_ind_zero by exact E. ring.
+    - rewrite qform_grad_ev, ev_c0, map_length, map_map, dotR_bigsum_r, map_length.
+      rewrite Rplus_0_l. apply bigsum_ext. intros i Hi.
+      rewrite nth_map_seq by exact Hi. rewrite qf_row_ev. reflexivity.
+  Qed.
+
+  (* ---------------------------------------------------------------- *)
+  (** ** The main induction *)
+
+  Definition Hyp (e : expr) : Prop :=
+    wf e = true -> exact_ops e = true -> dot_same_ok e = true ->
+    regular rho penv e -> DerivOK e.
+
+  Lemma Forall_Hyp es :
+    Forall Hyp es -> forallb wf es = true -> forallb exact_ops es = true ->
+    forallb dot_same_ok es = true -> Forall (regular rho penv) es -> Forall DerivOK es.
+  Proof.
+    induction 1 as [|e es He Hes IH]; simpl; intros Hw Hx Hd Hr; [constructor|].
+    apply andb_true_iff in Hw. apply andb_true_iff in Hx. apply andb_true_iff in Hd.
+    destruct Hw as [Hw1 Hw2]. destruct Hx as [Hx1 Hx2]. destruct Hd as [Hd1 Hd2].
+    inversion Hr; subst. constructor; [apply He; assumption|apply IH; assumption].
+  Qed.
+
+  Ltac split_andb :=
+    repeat match goal with
+           | H : _ && _ = true |- _ => apply andb_true_iff in H; destruct H
+           end.
+
+  Lemma grad_correct_aux e : Hyp e.
+  Proof.
+    pattern e; apply expr_ind_strong; clear e; unfold Hyp;
+      [intros q|intros x|intros p|intros o l r IHl IHr|intros o a IHa|intros i xs
+      |intros cs k es IH|intros kl ls kr rs IHls IHrs
+      |intros k es IH|intros k es IH|intros k es m IH|intros i xs p|intros i xs o
+      |intros es IH|intros b es IH|intros es IH]; intros Hw Hx Hd Hr.
+    - apply P_const.
+    - apply P_var.
+    - apply P_param.
+    - simpl in Hw, Hx, Hd. split_andb.
+      apply regular_bin in Hr. destruct Hr as [Hr1 [Hr2 Hr3]].
+      apply P_bin; auto.
+    - simpl in Hw, Hx, Hd. split_andb. destruct Hr as [Hr1 Hr2]. apply P_un; auto.
+    - simpl in Hw. split_andb. apply P_vsum. now apply NoDupb_NoDup.
+    - simpl in Hw, Hx, Hd, Hr. split_andb. apply fold_and_Forall in Hr.
+      apply P_lincomb; [assumption|]. apply Forall_Hyp; assumption.
+    - simpl in Hw, Hx, Hd, Hr. split_andb. destruct Hr as [Hr1 Hr2].
+      apply fold_and_Forall in Hr1. apply fold_and_Forall in Hr2.
+      apply P_dot; try assumption; apply Forall_Hyp; assumption.
+    - simpl in Hw, Hx, Hd, Hr. split_andb. destruct Hr as [Hr1 Hr2].
+      apply fold_and_Forall in Hr1.
+      apply P_l2n; try assumption. apply Forall_Hyp; assumption.
+    - simpl in Hw, Hx, Hd, Hr. split_andb.
+      apply (fold_and_Forall (fun e => regular rho penv e /\ ev e <> 0)) in Hr.
+      apply P_l1n; try assumption.
+      + apply Forall_Hyp; try assumption.
+        eapply Forall_impl; [|exact Hr]. intros a [Ha _]. exact Ha.
+      + eapply Forall_impl; [|exact Hr]. intros a [_ Ha]. exact Ha.
+    - simpl in Hw, Hx, Hd, Hr. split_andb. apply fold_and_Forall in Hr.
+      apply P_qform; [assumption|]. apply Forall_Hyp; assumption.
+    - simpl in Hw, Hr.
+      apply (fold_and_Forall (fun y => powQ_reg (rho y) p)) in Hr.
+      apply P_vpowsum; [now apply NoDupb_NoDup|exact Hr].
+    - simpl in Hw, Hx, Hr.
+      apply (fold_and_Forall (fun y => uop_reg o (rho y))) in Hr.
+      apply P_vunsum; [exact Hx|now apply NoDupb_NoDup|exact Hr].
+    - simpl in Hw, Hx, Hd, Hr. apply fold_and_Forall in Hr.
+      apply P_vexprsum. apply Forall_Hyp; assumption.
+    - simpl in Hw, Hx, Hd, Hr. split_andb. apply fold_and_Forall in Hr.
+      apply P_msum. apply Forall_Hyp; assumption.
+    - simpl in Hw, Hx, Hd, Hr. split_andb. destruct Hr as [Hr1 Hr2].
+      apply fold_and_Forall in Hr1.
+      apply P_frob; [|assumption]. apply Forall_Hyp; assumption.
+  Qed.
 (*VEC*)
 End Correct.
+
+(** * C02, main theorem *)
+Theorem grad_correct : forall ln2c ln10c e v rho penv,
+  wf e = true -> exact_ops e = true -> dot_same_ok e = true -> regular rho penv e ->
+  is_derive (fun t : R => evalR (upd rho v t) penv e) (rho v)
+            (evalR rho penv (grad ln2c ln10c v e)).
+Proof.
+  intros ln2c ln10c e v rho penv Hw Hx Hd Hr.
+  exact (grad_correct_aux ln2c ln10c v rho penv e Hw Hx Hd Hr).
+Qed.
 
 Theorem grad_correct_scalar : forall ln2c ln10c e v rho penv,
   scalar_only e = true -> exact_ops e = true -> regular rho penv e ->
@@ -589,3 +798,541 @@ Proof.
   intros ln2c ln10c e v rho penv Hs Hx Hr.
   exact (grad_correct_scalar_aux ln2c ln10c v rho penv e Hs Hx Hr).
 Qed.
+
+(* ------------------------------------------------------------------ *)
+(** * Absent variables: the gradient is the literal 0 *)
+
+Lemma s_mul_0_r l : s_mul l c0 = c0.
+Proof. unfold s_mul. simpl is_zero. now rewrite orb_true_r. Qed.
+
+Lemma binary_grad_c0 o l r : binary_grad o l r c0 c0 = c0.
+Proof.
+  destruct o; try reflexivity.
+  - unfold binary_grad. now rewrite !s_mul_0_r.
+  - unfold binary_grad. now rewrite !s_mul_0_r.
+  - unfold binary_grad. destruct r; rewrite ?s_mul_0_r; try reflexivity.
+    destruct (Qeq_bool q 0); [reflexivity|]. destruct (Qeq_bool q 1); reflexivity.
+Qed.
+
+Lemma unary_grad_c0 ln2c ln10c o a : unary_grad ln2c ln10c o a c0 = c0.
+Proof. destruct o; unfold unary_grad; rewrite ?s_mul_0_r; reflexivity. Qed.
+
+Lemma existsb_false_Forall {A} (f : A -> bool) l :
+  existsb f l = false -> Forall (fun a => f a = false) l.
+Proof.
+  induction l as [|a l IH]; simpl; intros H; [constructor|].
+  apply orb_false_iff in H. destruct H as [H1 H2]. constructor; auto.
+Qed.
+
+Lemma map_all_c0 (gr : expr -> expr) es :
+  Forall (fun e => gr e = c0) es -> map gr es = map (fun _ => c0) es.
+Proof. intros H. now apply map_ext_Forall'. Qed.
+
+Lemma sum_grad_c0 {A} (es : list A) : sum_grad (map (fun _ => c0) es) c0 = c0.
+Proof. induction es as [|e es IH]; simpl; [reflexivity|exact IH]. Qed.
+
+Lemma lincomb_grad_c0 {A} cs (es : list A) : lincomb_grad cs (map (fun _ => c0) es) c0 = c0.
+Proof.
+  revert cs. induction es as [|e es IH]; intros [|c cs]; simpl; try reflexivity.
+  rewrite s_mul_0_r. apply IH.
+Qed.
+
+Lemma norm2_grad_c0 node es : norm2_grad node es (map (fun _ => c0) es) c0 = c0.
+Proof.
+  induction es as [|e es IH]; simpl; [reflexivity|]. rewrite s_mul_0_r. exact IH.
+Qed.
+
+Lemma norm1_grad_c0 es : norm1_grad es (map (fun _ => c0) es) c0 = c0.
+Proof.
+  induction es as [|e es IH]; simpl; [reflexivity|]. rewrite s_mul_0_r. exact IH.
+Qed.
+
+Lemma dot_gen_grad_c0 ls rs :
+  dot_gen_grad ls rs (map (fun _ => c0) ls) (map (fun _ => c0) rs) c0 = c0.
+Proof.
+  revert rs. induction ls as [|l ls IH]; intros [|r rs]; simpl; try reflexivity.
+  rewrite !s_mul_0_r. apply IH.
+Qed.
+
+Lemma qform_grad_c0 {A} es m (l : list A) i : qform_grad es m (map (fun _ => c0) l) i c0 = c0.
+Proof.
+  revert i. induction l as [|a l IH]; intros i; simpl; [reflexivity|].
+  rewrite s_mul_0_r. apply IH.
+Qed.
+
+Section Absent.
+  Variables ln2c ln10c : Q.
+  Variable v : string.
+  Notation g := (grad ln2c ln10c v).
+
+  Lemma no_var_names es :
+    existsb (mentions v) es = false -> mem_name v (vec_names es) = false.
+  Proof.
+    induction es as [|e es IH]; simpl; intros H; [reflexivity|].
+    apply orb_false_iff in H. destruct H as [H1 H2]. specialize (IH H2).
+    destruct e; simpl; try exact IH. simpl in H1.
+    rewrite String.eqb_sym, H1. exact IH.
+  Qed.
+
+  Lemma first_coeff_absent cs es :
+    existsb (mentions v) es = false -> first_coeff v cs es = c0.
+  Proof.
+    revert cs. induction es as [|e es IH]; intros [|c cs] H; simpl; try reflexivity.
+    simpl in H. apply orb_false_iff in H. destruct H as [H1 H2].
+    destruct e; try (apply IH; exact H2). simpl in H1. rewrite H1. apply IH, H2.
+  Qed.
+
+  Lemma index_of_absent es k :
+    existsb (mentions v) es = false -> index_of v es k = None.
+  Proof.
+    revert k. induction es as [|e es IH]; intros k H; simpl; [reflexivity|].
+    simpl in H. apply orb_false_iff in H. destruct H as [H1 H2].
+    destruct e; try (apply IH; exact H2). simpl in H1. rewrite H1. apply IH, H2.
+  Qed.
+
+  Lemma dot_vv_grad_absent ls rs acc :
+    existsb (mentions v) ls = false -> existsb (mentions v) rs = false ->
+    dot_vv_grad v ls rs acc = acc.
+  Proof.
+    revert rs acc. induction ls as [|l ls IH]; intros [|r rs] acc Hl Hr; simpl;
+      try reflexivity.
+    simpl in Hl, Hr. apply orb_false_iff in Hl. apply orb_false_iff in Hr.
+    destruct Hl as [Hl1 Hl2]. destruct Hr as [Hr1 Hr2].
+    assert (E1 : match l with
+                 | Var x => if String.eqb x v then s_add acc r else acc
+                 | _ => acc end = acc).
+    { destruct l; try reflexivity. simpl in Hl1. now rewrite Hl1. }
+    rewrite E1.
+    assert (E2 : match r with
+                 | Var y => if String.eqb y v then s_add acc l else acc
+                 | _ => acc end = acc).
+    { destruct r; try reflexivity. simpl in Hr1. now rewrite Hr1. }
+    rewrite E2. apply IH; assumption.
+  Qed.
+
+  Lemma Forall_absent es :
+    Forall (fun e => mentions v e = false -> g e = c0) es ->
+    existsb (mentions v) es = false -> map g es = map (fun _ => c0) es.
+  Proof.
+    intros IH H. apply map_all_c0. apply existsb_false_Forall in H.
+    exact (Forall_mp _ _ _ IH H).
+  Qed.
+
+  Theorem grad_absent_aux e : mentions v e = false -> g e = c0.
+  Proof.
+    pattern e; apply expr_ind_strong; clear e;
+      [intros q|intros x|intros p|intros o l r IHl IHr|intros o a IHa|intros i xs
+      |intros cs k es IH|intros kl ls kr rs IHls IHrs
+      |intros k es IH|intros k es IH|intros k es m IH|intros i xs p|intros i xs o
+      |intros es IH|intros b es IH|intros es IH]; simpl mentions; intros H.
+    - reflexivity.
+    - simpl. now rewrite H.
+    - reflexivity.
+    - apply orb_false_iff in H. destruct H as [H1 H2].
+      change (g (Bin o l r)) with (binary_grad o l r (g l) (g r)).
+      rewrite (IHl H1), (IHr H2). apply binary_grad_c0.
+    - change (g (Un o a)) with (unary_grad ln2c ln10c o a (g a)).
+      rewrite (IHa H). apply unary_grad_c0.
+    - simpl. now rewrite H.
+    - destruct k; simpl.
+      + now apply first_coeff_absent.
+      + rewrite (Forall_absent es IH H). apply lincomb_grad_c0.
+    - apply orb_false_iff in H. destruct H as [H1 H2].
+      simpl. rewrite (Forall_absent ls IHls H1), (Forall_absent rs IHrs H2).
+      destruct kl as [i|], kr as [j|]; try apply dot_gen_grad_c0.
+      destruct (N.eqb i j).
+      + now rewrite (no_var_names ls H1).
+      + now apply dot_vv_grad_absent.
+    - destruct k; simpl.
+      + now rewrite (no_var_names es H).
+      + rewrite (Forall_absent es IH H). apply norm2_grad_c0.
+    - destruct k; simpl.
+      + now rewrite (no_var_names es H).
+      + rewrite (Forall_absent es IH H). apply norm1_grad_c0.
+    - destruct k; simpl.
+      + now rewrite (index_of_absent es 0 H).
+      + rewrite (Forall_absent es IH H). apply qform_grad_c0.
+    - simpl. now rewrite H.
+    - simpl. now rewrite H.
+    - simpl. rewrite (Forall_absent es IH H). apply sum_grad_c0.
+    - simpl. rewrite (Forall_absent es IH H). apply sum_grad_c0.
+    - simpl. rewrite (Forall_absent es IH H). apply norm2_grad_c0.
+  Qed.
+End Absent.
+
+(** * C02, second theorem: syntactic zero for variables that do not occur *)
+Theorem grad_absent : forall ln2c ln10c e v,
+  mentions v e = false -> grad ln2c ln10c v e = Const 0%Q.
+Proof. intros ln2c ln10c e v H. exact (grad_absent_aux ln2c ln10c v e H). Qed.
+
+(* ------------------------------------------------------------------ *)
+(** * Closure of structural predicates under differentiation
+      (needed to iterate [grad], e.g. for Hessians) *)
+
+Definition elems (e : expr) : list expr :=
+  match e with
+  | LinComb _ _ es | L2n _ es | L1n _ es | QForm _ es _ | VExprSum es | MSum _ es
+  | Frob es => es
+  | Dot _ ls _ rs => ls ++ rs
+  | _ => []
+  end.
+
+Section Closed.
+  Variables ln2c ln10c : Q.
+  Variable v : string.
+  Notation g := (grad ln2c ln10c v).
+
+  (* a compositional boolean predicate on trees *)
+  Variable pr : expr -> bool.
+  Hypothesis pr_const : forall q, pr (Const q) = true.
+  Hypothesis pr_var : forall x, pr (Var x) = true.
+  Hypothesis pr_bin : forall o l r, pr (Bin o l r) = pr l && pr r.
+  Hypothesis pr_un_intro :
+    forall o a, uop_exact o = true -> pr a = true -> pr (Un o a) = true.
+  Hypothesis pr_un_elim : forall o a, pr (Un o a) = true -> pr a = true.
+  Hypothesis pr_elems : forall e, pr e = true -> forallb pr (elems e) = true.
+  Hypothesis pr_qform_lincomb :
+    forall k es m i, pr (QForm k es m) = true ->
+                     pr (LinComb (qsym_row m i (length es)) k es) = true.
+
+  Lemma pr_Bin o l r : pr l = true -> pr r = true -> pr (Bin o l r) = true.
+  Proof. intros Hl Hr. now rewrite pr_bin, Hl, Hr. Qed.
+
+  Lemma pr_s_add l r : pr l = true -> pr r = true -> pr (s_add l r) = true.
+  Proof.
+    intros Hl Hr. unfold s_add. destruct (is_zero l); [exact Hr|].
+    destruct (is_zero r); [exact Hl|]. now apply pr_Bin.
+  Qed.
+
+  Lemma pr_s_neg e : pr e = true -> pr (s_neg e) = true.
+  Proof.
+    intros He. unfold s_neg. destruct (is_zero e); [apply pr_const|].
+    destruct e; try (apply pr_un_intro; [reflexivity|exact He]).
+    destruct o; try (apply pr_un_intro; [reflexivity|exact He]).
+    exact (pr_un_elim _ _ He).
+  Qed.
+
+  Lemma pr_s_sub l r : pr l = true -> pr r = true -> pr (s_sub l r) = true.
+  Proof.
+    intros Hl Hr. unfold s_sub. destruct (is_zero r); [exact Hl|].
+    destruct (is_zero l); [now apply pr_s_neg|]. now apply pr_Bin.
+  Qed.
+
+  Lemma pr_s_mul l r : pr l = true -> pr r = true -> pr (s_mul l r) = true.
+  Proof.
+    intros Hl Hr. unfold s_mul. destruct (is_zero l || is_zero r); [apply pr_const|].
+    destruct (is_one l); [exact Hr|]. destruct (is_one r); [exact Hl|]. now apply pr_Bin.
+  Qed.
+
+  Lemma pr_s_div l r : pr l = true -> pr r = true -> pr (s_div l r) = true.
+  Proof.
+    intros Hl Hr. unfold s_div. destruct (is_zero l); [apply pr_const|].
+    destruct (is_one r); [exact Hl|]. now apply pr_Bin.
+  Qed.
+
+  Lemma pr_s_pow b q : pr b = true -> pr (s_pow b (Const q)) = true.
+  Proof.
+    intros Hb. unfold s_pow. destruct (is_zero (Const q)); [apply pr_const|].
+    destruct (is_one (Const q)); [exact Hb|]. destruct (is_zero b); [apply pr_const|].
+    destruct (is_one b); [apply pr_const|]. apply pr_Bin; [exact Hb|apply pr_const].
+  Qed.
+
+  Ltac pr_tac :=
+    repeat first
+           [ assumption
+           | apply pr_const
+           | apply pr_var
+           | apply pr_s_add
+           | apply pr_s_sub
+           | apply pr_s_mul
+           | apply pr_s_div
+           | apply pr_s_neg
+           | apply pr_s_pow
+           | apply pr_Bin
+           | (apply pr_un_intro; [reflexivity|]) ].
+
+  Lemma pr_unary_grad o a da :
+    pr (Un o a) = true -> pr da = true -> pr (unary_grad ln2c ln10c o a da) = true.
+  Proof.
+    intros He Hd. assert (Ha := pr_un_elim _ _ He).
+    destruct o; unfold unary_grad; pr_tac.
+  Qed.
+
+  Lemma pr_binary_grad o l r dl dr :
+    pr l = true -> pr r = true -> pr dl = true -> pr dr = true ->
+    pr (binary_grad o l r dl dr) = true.
+  Proof.
+    intros Hl Hr Hdl Hdr. destruct o; unfold binary_grad; try (pr_tac; fail).
+    destruct r; try (pr_tac; fail).
+    destruct (Qeq_bool q 0); [apply pr_const|].
+    destruct (Qeq_bool q 1); [exact Hdl|]. pr_tac.
+  Qed.
+
+  Lemma pr_sum_grad des acc :
+    forallb pr des = true -> pr acc = true -> pr (sum_grad des acc) = true.
+  Proof.
+    revert acc. induction des as [|d des IH]; simpl; intros acc Hd Ha; [exact Ha|].
+    apply andb_true_iff in Hd. destruct Hd as [Hd1 Hd2]. apply IH; pr_tac.
+  Qed.
+
+  Lemma pr_lincomb_grad cs des acc :
+    forallb pr des = true -> pr acc = true -> pr (lincomb_grad cs des acc) = true.
+  Proof.
+    revert des acc. induction cs as [|c cs IH]; intros [|d des] acc Hd Ha; simpl;
+      try exact Ha.
+    simpl in Hd. apply andb_true_iff in Hd. destruct Hd as [Hd1 Hd2]. apply IH; pr_tac.
+  Qed.
+
+  Lemma pr_norm2_grad node es des acc :
+    pr node = true -> forallb pr es = true -> forallb pr des = true -> pr acc = true ->
+    pr (norm2_grad node es des acc) = true.
+  Proof.
+    intros Hn. revert des acc. induction es as [|a es IH]; intros [|d des] acc He Hd Ha;
+      simpl; try exact Ha.
+    simpl in He, Hd. apply andb_true_iff in He. apply andb_true_iff in Hd.
+    destruct He as [He1 He2]. destruct Hd as [Hd1 Hd2]. apply IH; pr_tac.
+  Qed.
+
+  Lemma pr_norm1_grad es des acc :
+    forallb pr es = true -> forallb pr des = true -> pr acc = true ->
+    pr (norm1_grad es des acc) = true.
+  Proof.
+    revert des acc. induction es as [|a es IH]; intros [|d des] acc He Hd Ha;
+      simpl; try exact Ha.
+    simpl in He, Hd. apply andb_true_iff in He. apply andb_true_iff in Hd.
+    destruct He as [He1 He2]. destruct Hd as [Hd1 Hd2]. apply IH; pr_tac.
+  Qed.
+
+  Lemma pr_dot_vv_grad ls rs acc :
+    forallb pr ls = true -> forallb pr rs = true -> pr acc = true ->
+    pr (dot_vv_grad v ls rs acc) = true.
+  Proof.
+    revert rs acc. induction ls as [|l ls IH]; intros [|r rs] acc Hl Hr Ha;
+      simpl; try exact Ha.
+    simpl in Hl, Hr. apply andb_true_iff in Hl. apply andb_true_iff in Hr.
+    destruct Hl as [Hl1 Hl2]. destruct Hr as [Hr1 Hr2]. apply IH; try assumption.
+    assert (H1 : pr match l with
+                    | Var x => if String.eqb x v then s_add acc r else acc
+                    | _ => acc end = true).
+    { destruct l; try exact Ha. destruct (String.eqb x v); pr_tac. }
+    destruct r; try exact H1. destruct (String.eqb x v); pr_tac.
+  Qed.
+
+  Lemma pr_dot_gen_grad ls rs dls drs acc :
+    forallb pr ls = true -> forallb pr rs = true ->
+    forallb pr dls = true -> forallb pr drs = true -> pr acc = true ->
+    pr (dot_gen_grad ls rs dls drs acc) = true.
+  Proof.
+    revert rs dls drs acc.
+    induction ls as [|l ls IH]; intros [|r rs] [|dl dls] [|dr drs] acc Hl Hr Hdl Hdr Ha;
+      simpl; try exact Ha.
+    simpl in Hl, Hr, Hdl, Hdr.
+    apply andb_true_iff in Hl. apply andb_true_iff in Hr.
+    apply andb_true_iff in Hdl. apply andb_true_iff in Hdr.
+    destruct Hl as [Hl1 Hl2]. destruct Hr as [Hr1 Hr2].
+    destruct Hdl as [Hdl1 Hdl2]. destruct Hdr as [Hdr1 Hdr2]. apply IH; pr_tac.
+  Qed.
+
+  Lemma pr_qf_fold (l : list (expr * Q)) acc :
+    forallb pr (map fst l) = true -> pr acc = true ->
+    pr (fold_left (fun acc (jc : expr * Q) =>
+                     let '(ej, c) := jc in
+                     if Qeq_bool c 0 then acc else s_add acc (s_mul (Const c) ej)) l acc)
+    = true.
+  Proof.
+    revert acc. induction l as [|[ej c] l IH]; simpl; intros acc Hl Ha; [exact Ha|].
+    apply andb_true_iff in Hl. destruct Hl as [Hl1 Hl2]. apply IH; [exact Hl2|].
+    destruct (Qeq_bool c 0); pr_tac.
+  Qed.
+
+  Lemma pr_combine_fst {B} es (cs : list B) :
+    forallb pr es = true -> forallb pr (map fst (combine es cs)) = true.
+  Proof.
+    revert cs. induction es as [|e es IH]; intros [|c cs] H; simpl; try reflexivity.
+    simpl in H. apply andb_true_iff in H. destruct H as [H1 H2].
+    rewrite H1. simpl. apply IH, H2.
+  Qed.
+
+  Lemma pr_qf_row es m i : forallb pr es = true -> pr (qf_row es m i) = true.
+  Proof.
+    intros H. unfold qf_row. apply pr_qf_fold; [|apply pr_const].
+    apply pr_combine_fst, H.
+  Qed.
+
+  Lemma pr_qform_grad es m des i acc :
+    forallb pr es = true -> forallb pr des = true -> pr acc = true ->
+    pr (qform_grad es m des i acc) = true.
+  Proof.
+    intros He. revert i acc. induction des as [|d des IH]; simpl; intros i acc Hd Ha;
+      [exact Ha|].
+    apply andb_true_iff in Hd. destruct Hd as [Hd1 Hd2]. apply IH; [exact Hd2|].
+    pr_tac. apply pr_qf_row, He.
+  Qed.
+
+  Lemma pr_first_coeff cs es : pr (first_coeff v cs es) = true.
+  Proof.
+    revert cs. induction es as [|e es IH]; intros [|c cs]; simpl; try apply pr_const.
+    destruct e; try apply IH. destruct (String.eqb x v); [apply pr_const|apply IH].
+  Qed.
+
+  Lemma pr_map_grad es :
+    Forall (fun e => pr e = true -> pr (g e) = true) es ->
+    forallb pr es = true -> forallb pr (map g es) = true.
+  Proof.
+    induction 1 as [|e es He Hes IH]; simpl; intros H; [reflexivity|].
+    apply andb_true_iff in H. destruct H as [H1 H2]. now rewrite (He H1), (IH H2).
+  Qed.
+
+  Theorem grad_closed e : pr e = true -> pr (g e) = true.
+  Proof.
+    pattern e; apply expr_ind_strong; clear e;
+      [intros q|intros x|intros p|intros o l r IHl IHr|intros o a IHa|intros i xs
+      |intros cs k es IH|intros kl ls kr rs IHls IHrs
+      |intros k es IH|intros k es IH|intros k es m IH|intros i xs p|intros i xs o
+      |intros es IH|intros b es IH|intros es IH]; intros H;
+      try (assert (He := pr_elems _ H); simpl elems in He).
+    - apply pr_const.
+    - simpl. destruct (String.eqb x v); apply pr_const.
+    - apply pr_const.
+    - change (g (Bin o l r)) with (binary_grad o l r (g l) (g r)).
+      rewrite pr_bin in H. apply andb_true_iff in H. destruct H as [H1 H2].
+      apply pr_binary_grad; auto.
+    - change (g (Un o a)) with (unary_grad ln2c ln10c o a (g a)).
+      apply pr_unary_grad; [exact H|]. apply IHa. exact (pr_un_elim _ _ H).
+    - simpl. destruct (mem_name v xs); apply pr_const.
+    - destruct k; simpl.
+      + apply pr_first_coeff.
+      + apply pr_lincomb_grad; [|apply pr_const]. now apply pr_map_grad.
+    - rewrite forallb_app in He. apply andb_true_iff in He. destruct He as [Hl Hr].
+      assert (Hgen : pr (dot_gen_grad ls rs (map g ls) (map g rs) c0) = true).
+      { apply pr_dot_gen_grad; try assumption; try apply pr_const;
+          now apply pr_map_grad. }
+      simpl. destruct kl as [i|], kr as [j|]; try exact Hgen.
+      destruct (N.eqb i j).
+      + destruct (mem_name v (vec_names ls)); pr_tac.
+      + apply pr_dot_vv_grad; try assumption. apply pr_const.
+    - destruct k; simpl.
+      + destruct (mem_name v (vec_names es)); pr_tac.
+      + apply pr_norm2_grad; try assumption; try apply pr_const. now apply pr_map_grad.
+    - destruct k; simpl.
+      + destruct (mem_name v (vec_names es)); pr_tac.
+      + apply pr_norm1_grad; try assumption; try apply pr_const. now apply pr_map_grad.
+    - destruct k; simpl.
+      + destruct (index_of v es 0); [|apply pr_const]. now apply pr_qform_lincomb.
+      + apply pr_qform_grad; try assumption; try apply pr_const. now apply pr_map_grad.
+    - simpl. destruct (mem_name v xs); [|apply pr_const]. unfold vpow_deriv.
+      destruct (Qeq_bool p 1); [apply pr_const|]. destruct (Qeq_bool p 2); pr_tac.
+    - simpl. destruct (mem_name v xs); [|apply pr_const].
+      destruct o; simpl; pr_tac.
+    - simpl. apply pr_sum_grad; [|apply pr_const]. now apply pr_map_grad.
+    - simpl. apply pr_sum_grad; [|apply pr_const]. now apply pr_map_grad.
+    - simpl. apply pr_norm2_grad; try assumption; try apply pr_const.
+      now apply pr_map_grad.
+  Qed.
+End Closed.
+
+(** * C02, third theorem: the gradient of a well-formed tree is well formed *)
+Theorem grad_wf : forall ln2c ln10c v e,
+  wf e = true -> wf (grad ln2c ln10c v e) = true.
+Proof.
+  intros ln2c ln10c v. apply (grad_closed ln2c ln10c v wf); try reflexivity.
+  - intros o a _ H. exact H.
+  - intros o a H. exact H.
+  - intros e H. destruct e; try reflexivity; simpl in *;
+      repeat (apply andb_true_iff in H; destruct H as [H ?]); try assumption.
+    rewrite forallb_app. apply andb_true_iff. split; assumption.
+  - intros k es m i H. simpl in *.
+    repeat (apply andb_true_iff in H; destruct H as [H ?]).
+    unfold qsym_row. rewrite map_length, seq_length, Nat.eqb_refl, H. simpl. assumption.
+Qed.
+
+Theorem grad_exact_ops : forall ln2c ln10c v e,
+  exact_ops e = true -> exact_ops (grad ln2c ln10c v e) = true.
+Proof.
+  intros ln2c ln10c v. apply (grad_closed ln2c ln10c v exact_ops); try reflexivity.
+  - intros o a Ho H. simpl. now rewrite Ho, H.
+  - intros o a H. simpl in H. apply andb_true_iff in H. tauto.
+  - intros e H. destruct e; try reflexivity; simpl in *; try assumption.
+    rewrite forallb_app. exact H.
+  - intros k es m i H. exact H.
+Qed.
+
+Theorem grad_dot_same_ok : forall ln2c ln10c v e,
+  dot_same_ok e = true -> dot_same_ok (grad ln2c ln10c v e) = true.
+Proof.
+  intros ln2c ln10c v. apply (grad_closed ln2c ln10c v dot_same_ok); try reflexivity.
+  - intros o a _ H. exact H.
+  - intros o a H. exact H.
+  - intros e H. destruct e; try reflexivity; simpl in *; try assumption.
+    rewrite forallb_app. apply andb_true_iff in H. destruct H as [H H2].
+    apply andb_true_iff in H. destruct H as [_ H1]. now rewrite H1, H2.
+  - intros k es m i H. exact H.
+Qed.
+
+(* ------------------------------------------------------------------ *)
+(** * Non-vacuity: concrete expressions at concrete regular points *)
+
+Definition ex_rho : env :=
+  fun s => if String.eqb s "x" then 1
+           else if String.eqb s "y" then 3
+           else if String.eqb s "a" then 3
+           else if String.eqb s "b" then 4 else 0.
+Definition ex_penv : env := fun _ => 0.
+
+(* sin(x) * y^2 *)
+Definition ex1 : expr :=
+  Bin Mul (Un Sin (Var "x")) (Bin Pow (Var "y") (Const 2%Q)).
+
+Example ex1_hyps :
+  wf ex1 = true /\ exact_ops ex1 = true /\ dot_same_ok ex1 = true /\
+  regular ex_rho ex_penv ex1.
+Proof.
+  repeat split; try reflexivity. unfold powQ_reg. simpl. left. discriminate.
+Qed.
+
+Example ex1_grad_x :
+  grad 0%Q 0%Q "x" ex1 = Bin Mul (Bin Pow (Var "y") (Const 2%Q)) (Un Cos (Var "x")).
+Proof. reflexivity. Qed.
+
+Example ex1_grad_y :
+  grad 0%Q 0%Q "y" ex1 =
+  Bin Mul (Un Sin (Var "x")) (Bin Mul (Const 2%Q) (Var "y")).
+Proof. reflexivity. Qed.
+
+Example ex1_derive_y :
+  is_derive (fun t : R => sin 1 * powQ t 2) 3 (sin 1 * (Q2R 2 * 3)).
+Proof.
+  destruct ex1_hyps as [Hw [Hx [Hd Hr]]].
+  exact (grad_correct 0%Q 0%Q ex1 "y" ex_rho ex_penv Hw Hx Hd Hr).
+Qed.
+
+(* ||(a,b)||_2 + (a,b).(a,b) + (a,b)' [[1,2],[3,4]] (a,b), one VectorVariable *)
+Definition ex2 : expr :=
+  Bin Add (L2n (KVar 1) [Var "a"; Var "b"])
+    (Bin Add (Dot (KVar 1) [Var "a"; Var "b"] (KVar 1) [Var "a"; Var "b"])
+       (QForm (KVar 1) [Var "a"; Var "b"] [[1%Q; 2%Q]; [3%Q; 4%Q]])).
+
+Example ex2_hyps :
+  wf ex2 = true /\ exact_ops ex2 = true /\ dot_same_ok ex2 = true /\
+  regular ex_rho ex_penv ex2.
+Proof.
+  repeat split; try reflexivity. simpl. unfold ex_rho, Rsqr. simpl. lra.
+Qed.
+
+Example ex2_derive_a :
+  is_derive (fun t : R => evalR (upd ex_rho "a" t) ex_penv ex2) 3
+            (evalR ex_rho ex_penv (grad 0%Q 0%Q "a" ex2)).
+Proof.
+  destruct ex2_hyps as [Hw [Hx [Hd Hr]]].
+  exact (grad_correct 0%Q 0%Q ex2 "a" ex_rho ex_penv Hw Hx Hd Hr).
+Qed.
+
+Example ex2_absent : grad 0%Q 0%Q "z" ex2 = Const 0%Q.
+Proof. apply grad_absent. reflexivity. Qed.
+
+Print Assumptions grad_correct.
+Print Assumptions grad_correct_scalar.
+Print Assumptions grad_absent.
+Print Assumptions grad_wf.
+Print Assumptions grad_exact_ops.
+Print Assumptions grad_dot_same_ok.
